@@ -889,6 +889,52 @@ def duplicate_add_then_truncation(**kw):
     return sc.rec
 
 
+def spliced_snapshot_is_dropped(**kw):
+    """a piece of a snapshot transfer is lost in flight without the sender noticing (no disconnect in between - not
+    what TCP does, but what the transfer must survive), the following pieces arrive: the receiver assembles a file with
+    a hole.  It must not become the dump the node would restart from (FX-C06-2: a received file replaces the stored one
+    only if it can be read and is ahead), nothing is installed, and the next round of the leader brings the node up to
+    date; killed and restarted in between, the node comes back from its own files."""
+    sc = Script(base_cfg([1, 2, 3], chunk=32, fallback=100000, dump='file', journal='file'), **kw)
+    s, sim = sc.s, sc.sim
+
+    def trans(n):
+        return sim.nodes[n]._SyncObj__serializer._Serializer__transmissions
+    s.boot()
+    sc.elect(1)
+    sc.settle([1, 2, 3], 2)
+    s.submit(1, size=10)
+    sc.settle([1, 2, 3], 3)
+    sc.rec.do(('compact', 3))
+    sc.settle([1, 2, 3], 3)           # node 3 has a dump of its own
+    sc.isolate(3)
+    for _ in range(4):
+        s.submit(1, size=20)
+    sc.settle([1, 2], 4)
+    sc.rec.do(('compact', 1))
+    sc.settle([1, 2], 3)
+    sc.join(3)
+    for _ in range(6):
+        s.tick(1, 11, budget=2)        # the send loop is cut by the clock after two turns
+        if trans(1) and sim.queue_len(1, 3) >= 2:
+            break
+        sc.flush(1, 3)
+        sc.flush(3, 1)
+    sc.rec.do(('lose', 1, 3, 1))       # the piece queued last never arrives
+    for _ in range(8):
+        s.tick(1, 11)
+        if not trans(1):
+            break
+    sc.flush(1, 3)                     # the rest of the transfer, with a hole
+    s.kill(3)
+    s.restart(3)                       # from its own journal and dump
+    sc.settle([1, 2, 3], 12)
+    RC.quiet_period(s, timeouts=4, submit_on=1)
+    sc.rec.convergence = RC.convergence_problems(sc.rec, s, None, {})
+    sc.rec.convergence_props = ('C05', 'C09', 'C06')
+    return sc.rec
+
+
 def dump_kill_points(**kw):
     """a journaled node with a dump file is killed at each storage primitive of the tick that writes its dump
     (tmp write, rename, right after the rename) and restarted: the file under the dump's name is always a complete
@@ -1734,7 +1780,7 @@ SCENARIOS = {'d7': d7, 'd8': d8, 'd17': d17, 'd16': d16, 'd1': d1, 'd20': d20,
              'restart_double_vote': restart_double_vote, 'd18': d18, 'd10': d10, 'd19': d19, 'd6': d6,
              'ser_fork': ser_fork, 'ser_custom': ser_custom, 'fig8': fig8, 'stale_match_reelected': stale_match_reelected,
              'stale_cursor': stale_cursor, 'compact_during_install': compact_during_install,
-             'member_rollback': member_rollback, 'backoff_burst': backoff_burst, 'snapshot_members': snapshot_members, 'old_snapshot_again': old_snapshot_again, 'refused_snapshot_then_kill': refused_snapshot_then_kill, 'duplicate_add_then_truncation': duplicate_add_then_truncation, 'dump_kill_points': dump_kill_points, 'install_drops_acked': install_drops_acked,
+             'member_rollback': member_rollback, 'backoff_burst': backoff_burst, 'snapshot_members': snapshot_members, 'old_snapshot_again': old_snapshot_again, 'spliced_snapshot_is_dropped': spliced_snapshot_is_dropped, 'refused_snapshot_then_kill': refused_snapshot_then_kill, 'duplicate_add_then_truncation': duplicate_add_then_truncation, 'dump_kill_points': dump_kill_points, 'install_drops_acked': install_drops_acked,
              'snapshot_at_membership_entry': snapshot_at_membership_entry,
              'restart_empty_follower': restart_empty_follower,
              'stale_tail_behind_snapshot': stale_tail_behind_snapshot,
